@@ -87,6 +87,7 @@ def make_msg(kind: str, i: int) -> t.Any:
 
 CLIENT_CALLS_EXTRA: t.Dict[str, t.Callable[[t.Any], t.Any]] = {
     "ext1k": lambda c: c.extended_request("1.2", b"k" * 1000),  # used by the long runs only
+    "ext70k": lambda c: c.extended_request("1.2", b"K" * 70000),
 }
 CLIENT_CALLS: t.Dict[str, t.Callable[[t.Any], t.Any]] = {
     "bind_simple": lambda c: c.bind_simple(),
@@ -107,6 +108,7 @@ SERVER_CALLS: t.Dict[str, t.Callable[[t.Any, int], t.Any]] = {
 }
 SERVER_CALLS_EXTRA: t.Dict[str, t.Callable[[t.Any, int], t.Any]] = {
     "entry1k": lambda s, i: s.search_result_entry(i, "cn=e", [L.PartialAttribute("a", [b"k" * 1000])]),
+    "entry70k": lambda s, i: s.search_result_entry(i, "cn=e", [L.PartialAttribute("a", [b"K" * 70000])]),
 }
 GARBAGE = b"\x04\x00"
 
@@ -297,6 +299,11 @@ def step(role: str, s: t.Any, g: Ghost, ev: Event, kmax: int, drain: bool = True
     except BaseException as e:  # noqa: BLE001 - the class is what is being checked
         exc = e
     out = s2.data_to_send() if drain else b""
+    if not drain and exc is not None and ev[0] in ("call", "callbad"):
+        # with a backlog kept: a refused call must leave the queued bytes exactly as they were
+        before, after = copy.deepcopy(s).data_to_send(), copy.deepcopy(s2).data_to_send()
+        if before != after:
+            out = after[len(before) :] if after.startswith(before) else b"\x00"
     post = s2.state
     rec = Rec(pre, post, exc, ret, out)
     viol: t.List[t.Tuple[str, str, str]] = []
@@ -520,7 +527,7 @@ def monitors(role: str, g: Ghost, ev: Event, rec: Rec, viol: t.List[t.Tuple[str,
                 wire = _first_id(out)
                 if wire != i:
                     flag("C10", f"response-id-on-wire-differs:{name}", f"{name}({i}) emitted id {wire!r}")
-            if accepted and name not in ("entry", "ref", "entry1k"):
+            if accepted and name not in ("entry", "ref", "entry1k", "entry70k"):
                 inprog.pop(i, None)
     # (d) client side: a bind cannot start while other operations are outstanding
     if role == "client" and is_bindreq and definite:
@@ -713,6 +720,10 @@ def client_long_histories(marathon: bool = False) -> t.Iterator[t.Tuple[str, t.L
     hb += [("recv", "ExtResp", k + 1) for k in range(75)]
     hb += [("call", "bind_simple", -1), ("recv", "BindResp-ok", 76), ("call", "search", -1), ("recv", "Done", 77), ("call", "unbind", -1), ("call", "ext", -1)]
     yield "client-backlog-nodrain", hb
+    # more than 1 MiB accepted and undrained
+    hm: t.List[Event] = [("call", "ext70k", -1) for _ in range(17)] + [("call", "bind_simple", -1)]
+    hm += [("recv", "ExtResp", k + 1) for k in range(17)] + [("call", "search", -1), ("call", "unbind", -1)]
+    yield "client-backlog-1MiB-nodrain", hm
     if marathon:
         # one search stays open while 33 000 further operations are issued and completed (id roll-over points)
         h1: t.List[Event] = [("call", "search", -1)]
@@ -764,6 +775,9 @@ def server_long_histories() -> t.Iterator[t.Tuple[str, t.List[Event]]]:
     hb += [("call", "entry1k", 1) for _ in range(75)]
     hb += [("call", "done", 1), ("call", "entry", 1), ("call", "ext_response", 2), ("recv", "BindReq", 3), ("call", "entry", 3), ("call", "bind_response-ok", 3), ("recv", "SearchReq", 4), ("call", "notice", 4), ("call", "ext_response", 4)]
     yield "server-backlog-nodrain", hb
+    hm: t.List[Event] = [("recv", "SearchReq", 1), ("recv", "ExtReq", 2)] + [("call", "entry70k", 1) for _ in range(17)]
+    hm += [("call", "entry", 3), ("call", "done", 1), ("call", "done", 1), ("call", "ext_response", 2), ("call", "ext_response", 2)]
+    yield "server-backlog-1MiB-nodrain", hm
     for name, ids in idsets.items():
         for order_name, order in (("fifo", _fifo), ("lifo", _lifo), ("oddeven", _oddeven)):
             h: t.List[Event] = []
